@@ -18,6 +18,26 @@ CHECKS = {
         "Not yet proved: the setup-version pattern alone and the composition of the five patterns on lines carrying several marker kinds — those are covered by the correspondence and the sequence oracle only. "
         "Tie: chore.updateRules and every marker regexp alone vs the compiled model, byte-exact; update-copyright binary on sandbox trees, sequences of 1..3 runs vs the last run alone.",
    design="§7 C14", technique="Lean 4 proof (per-pattern last-wins laws, list induction) + differential correspondence with the Go code"),
+ "C11": dict(
+   text="Lean theorems for all rules-file contents and regexes: C11_frame (a successful update changes one line, and on it only the text between the first \"@rx / \"!@rx and the last `\" \\`; all other lines — with their carriage returns, final newline or its absence — are kept, using joinNl∘splitNl = id), C11_lines, C11_target_rule_line (CRS layout: the line before the first `id:R` line), C11_target_chained (k-th following SecRule line). "
+        "Tie: updateRegex/readCurrentRegex (real code via hooks) vs the compiled model on generated rules files, byte-exact; the generator records the byte span of the addressed operand and the oracle checks every other byte; update binary on sandbox trees.",
+   design="§7 C11", technique="Lean 4 proof (frame theorem over split/join lines) + differential correspondence"),
+ "C12": dict(
+   text="Lean theorems: C12_roundtrip (what update writes is what compare reads back, for every one-line regex whatever it contains, under the explicit side condition KeepsClass: the rewritten line is still classified alike by the `id:R`/`SecRule` line tests), C12_second_update_noop, C12_compare_iff, C12_update_then_compare. Key lemma splitOperand_rebuild: the first operator stays the first, the last `\" \\` stays the last. "
+        "Tie: as C11 plus histories update→compare, update→update, edit-one-byte→compare on the real binaries (single rule and GitHub mode).",
+   design="§7 C12", technique="Lean 4 proof (round-trip law) + differential correspondence + CLI histories"),
+ "C17": dict(
+   text="Lean theorems: C17_scan_total / C17_rawLines_cover (the model scanner returns every line and the lines account for every byte, independent of any length), C17_limited_is_prefix / C17_limited_complete (what Go's default 64 KiB token limit would lose, and exactly when nothing), per-command carry-through (C17_renumber_all_lines, C17_copyright_all_lines, C17_format_all_lines). "
+        "Tie per scanner site (that the code really has no limit is a fact about the code, not the model): a line of 64 KiB±1 … 1 MiB at the first/middle/last position through Parse, assemble, include, replaceSuffixes, include-except, exclusion file, format, renumber-tests, update-copyright, in the real code and in the model.",
+   design="§7 C17", technique="Lean 4 proof (totality of the line scanner) + per-site long-line correspondence"),
+ "C18": dict(
+   text="Lean theorems over all argument strings: C18_accepts (every NNNNNN[-chainK][.ra] with K ≤ 255 resolves to id, file name in the argument's own spelling, offset K), C18_rejects_large_offset (K > 255 of any length is rejected: no wrap-around), C18_sound / C18_sound_tail (nothing else is accepted; offset ≤ 255; file name = argument [+ .ra]). "
+        "Tie: parseRuleId (real code via hook) vs the model on strings around the grammar; `generate ARG` vs `generate -` and nested CRS roots on the binary.",
+   design="§7 C18", technique="Lean 4 proof (grammar soundness and completeness) + differential correspondence + CLI resolution runs"),
+ "C20": dict(
+   text="Lean theorems about the decision model: C20_install_only_if (installed bytes are the platform asset of a listed, non-draft, non-pre-release release strictly newer than the running version, whose checksum file was fetched and lists exactly the SHA-256 of those bytes), C20_else_unchanged, C20_mismatch_not_installed. "
+        "Tie: the binary built from the working tree with a version stamp runs `self-update` against a local HTTPS fake of GitHub (HTTPS_PROXY + SSL_CERT_FILE, no code change); installed bytes / unchanged / exit status compared with the model's decision and with an independent expectation. Partial by nature: HTTP, archive decoding and file replacement are exercised, not modelled.",
+   design="§7 C20", technique="Lean 4 proof on a decision model + end-to-end run against a fake release service"),
 }
 
 NOT_YET = "check not built yet (work in progress in this round; planned per DESIGN.md §7)"
